@@ -404,9 +404,9 @@ def stereo_mol_graph_to_rdmol(
                     map_num_idx_dict[b_stereo.atoms[0]],
                 )
                 if b_stereo.parity == 1:
-                    rd_bond.SetStereo(Chem.rdchem.BondStereo.STEREOATROPCCW)
-                elif b_stereo.parity == -1:
                     rd_bond.SetStereo(Chem.rdchem.BondStereo.STEREOATROPCW)
+                elif b_stereo.parity == -1:
+                    rd_bond.SetStereo(Chem.rdchem.BondStereo.STEREOATROPCCW)
             else:
                 raise Exception(f"something wrong with {b_stereo}")
 
